@@ -105,9 +105,9 @@ Definition rows_prod (i : inst) : list row :=
       else if has_cov a (m_pos m) then prod_rows (kMN a m) [kA a; kN a m] else []) (insts i)) (i_muts i).
 
 (* carriers of a variant: the expression of its coverage equation and of rule 5 *)
-Definition mut_terms (i : inst) (m : mutn) : lin :=
-  flat_map (fun a => if in_def a m then [(1%Q, kMK a m)]
-                     else if has_cov a (m_pos m) then [(1%Q, kMN a m)] else []) (insts i).
+Definition mut_keys (i : inst) (m : mutn) : list vkey :=
+  flat_map (fun a => if in_def a m then [kMK a m] else if has_cov a (m_pos m) then [kMN a m] else []) (insts i).
+Definition mut_terms (i : inst) (m : mutn) : lin := sumv (mut_keys i m).
 
 (* reference copies at a site (237-254) *)
 Definition ref_terms_a (i : inst) (pos : Z) (a : ainst) : lin :=
